@@ -1567,7 +1567,17 @@ def translate_all(root, policy=None):
     tr = Translator(project, policy)
     results = []
     for ep in project.entry_points():
-        prog = tr.translate(ep)
+        try:
+            prog = tr.translate(ep)
+        except TranslatorError as e:
+            # a construct the translator does not model: the entry point gets a deliberately failing obligation
+            # (conservative), and the sweep concentrates on it
+            prog = Program(ep.name)
+            v = prog.var(("param", "untranslatable"))
+            prog.params.append(v)
+            prog.emit(WRITE, v, 0, "untranslatable: %s" % e)
+            prog.nvars, prog.nsites = 1, 0
+            tr.unknown_calls.add("untranslatable entry point %s" % ep.name)
         results.append(Result(ep, prog, prog.solve(), policy))
     return project, tr, results
 
@@ -1601,6 +1611,12 @@ def generate(root, lean_dir, policy=None):
     for f in sorted(os.listdir(os.path.join(gdir, "ApiIR"))):        # shards of entry points that no longer exist
         if f.endswith(".lean") and f[:-5] not in by_shard:
             os.remove(os.path.join(gdir, "ApiIR", f))
+    for sub in ("lib/lean", "ir"):                                     # … and their stale build products
+        bdir = os.path.join(lean_dir, ".lake", "build", sub, "PersimVerif", "Generated", "ApiIR")
+        if os.path.isdir(bdir):
+            for f in sorted(os.listdir(bdir)):
+                if f.split(".")[0] not in by_shard:
+                    os.remove(os.path.join(bdir, f))
     top = [HEADER.replace("import PersimVerif.Props.C19\n", "".join("import PersimVerif.Generated.ApiIR.%s\n" % sid for sid in sorted(by_shard)))]
     top.append("namespace PersimVerif.Generated\n")
     top.append("/-- entry points with a generated obligation (%d), in place by contract (%d), dynamic only (%d) -/"
